@@ -94,8 +94,34 @@ func dumpHeadFields(P *Program) {
 	})
 }
 
+// recordForMap: owner type key + "." + field: the reference tree keeps a map[string]T there, this tree a struct of Ts.
+var recordForMap = map[string]bool{}
+
+// recordEntry: fa addresses a field of such a record: the record's own address and the entry's key.
+func recordEntry(fa *ssa.FieldAddr) (*ssa.FieldAddr, string, bool) {
+	if len(recordForMap) == 0 {
+		return nil, "", false
+	}
+	inner, ok := fa.X.(*ssa.FieldAddr)
+	if !ok {
+		if al, isAl := fa.X.(*ssa.Alloc); isAl {
+			if dst, isFA := nestedLiteralDest(al).(*ssa.FieldAddr); isFA {
+				inner, ok = dst, true
+			}
+		}
+	}
+	if !ok {
+		return nil, "", false
+	}
+	if !recordForMap[typeKey(inner.X.Type())+"."+fieldName(inner.X.Type(), inner.Field)] {
+		return nil, "", false
+	}
+	return inner, fieldName(fa.X.Type(), fa.Field), true
+}
+
 func computeFieldAliases(P *Program) {
 	fieldAlias = map[string]string{}
+	recordForMap = map[string]bool{}
 	head := map[string][]headField{}
 	for _, ln := range strings.Split(headFieldsTxt, "\n") {
 		p := strings.Split(ln, "\t")
@@ -134,6 +160,32 @@ func computeFieldAliases(P *Program) {
 		}
 		if len(missing) == 0 {
 			return
+		}
+		// a map with constant string keys kept as a record instead (`secrets map[string]*big.Int` becomes
+		// `secrets struct{ alpha, beta *big.Int }`): the record's fields are the map's entries
+		for _, h := range missing {
+			if !strings.HasPrefix(h.typ, "map[string]") {
+				continue
+			}
+			for i := 0; i < st.NumFields(); i++ {
+				f := st.Field(i)
+				if f.Name() != h.name {
+					continue
+				}
+				rs, ok := f.Type().Underlying().(*types.Struct)
+				if !ok || rs.NumFields() == 0 {
+					continue
+				}
+				all := true
+				for j := 0; j < rs.NumFields(); j++ {
+					if typeStr(rs.Field(j).Type()) != strings.TrimPrefix(h.typ, "map[string]") {
+						all = false
+					}
+				}
+				if all {
+					recordForMap[tk+"."+h.name] = true
+				}
+			}
 		}
 		type leaf struct{ path, name, typ string }
 		var leaves []leaf
